@@ -395,6 +395,11 @@ func (c *Check) Finish() {
 	if os.Getenv("VERIF_REPLAY") != "" {
 		path = filepath.Join(os.TempDir(), c.ID+"-replay-evidence.json")
 	}
+	if os.Getenv("VERIF_MODFILE") != "" {
+		// experiment against a scratch copy (VERIF_REPO): never overwrite the
+		// evidence of /repo itself
+		path = filepath.Join(os.TempDir(), c.ID+"-scratch-evidence.json")
+	}
 	if err := os.WriteFile(path, b, 0644); err != nil {
 		fmt.Fprintf(os.Stderr, "cannot write evidence: %v\n", err)
 	}
